@@ -10,6 +10,8 @@ mod c12;
 mod c13;
 mod c14;
 mod c16;
+mod c18;
+mod c19;
 mod codes;
 mod common;
 mod explore;
@@ -65,6 +67,8 @@ fn main() {
                     o
                 }
                 "C14" => c14::run(&ctx),
+                "C18" => c18::run(&ctx),
+                "C19" => c19::run(&ctx),
                 "C16" => {
                     let mut o = c16::run(&ctx, "C16");
                     o.set("rule", serde_json::json!("X2 on T2: breadth-first search (iterative deepening, canonical-digest de-duplication) over the real client sending on two streams against a scripted peer; events: reserve_capacity / send_data / end / reset / drop / poll_capacity per stream, peer WINDOW_UPDATE (connection, stream), SETTINGS INITIAL_WINDOW_SIZE up and down, RST_STREAM, connection polls with open / budgeted / blocked writes. In every state capacity(s) <= wire credit of s minus queued, sum of capacities <= connection credit, poll_capacity never Ok(0); from every new state the epilogue checks that the largest capacity is usable without a further grant, that free connection capacity has reached streams asking for more, and that no capacity waiter was left unwoken"));
@@ -101,6 +105,10 @@ fn main() {
                 c11::replay(&v)
             } else if h.starts_with("x2.client-limit") || h.starts_with("x2.server-limit") {
                 c05::replay(&v).unwrap_or(false)
+            } else if h.starts_with("x2.hostile") || h == "c18.directed" {
+                c18::replay(&v).unwrap_or(false)
+            } else if h.starts_with("x2.life") {
+                c19::replay(&v).unwrap_or(false)
             } else if h.starts_with("x2.acks") {
                 c14::replay(&v).unwrap_or(false)
             } else if h.starts_with("x2.receiver") {
